@@ -336,9 +336,16 @@ theorem additions_keep_steps_scheduled (e e' : Engine) (path : P) (deps : Option
     simp only [Option.map_eq_some_iff] at h
     obtain ⟨g, hg', rfl⟩ := h
     unfold addSequential at hg'
-    simp only at hg'
-    split at hg'
-    · simp only [Option.some.injEq] at hg'; subst hg'
+    by_cases hm : path ∈ e.graph.sequential
+    · simp [hm] at hg'
+      obtain ⟨_, rfl⟩ := hg'
+      intro s hs
+      simp only at hs ⊢
+      rcases (mem_addKey _ _ _).mp hs with h1 | rfl
+      · exact hg s h1
+      · left; exact hm
+    · simp [hm] at hg'
+      obtain ⟨_, rfl⟩ := hg'
       intro s hs
       simp only at hs ⊢
       rcases (mem_addKey _ _ _).mp hs with h1 | rfl
@@ -346,7 +353,6 @@ theorem additions_keep_steps_scheduled (e e' : Engine) (path : P) (deps : Option
         · left; simp [h2]
         · right; exact h2
       · left; simp
-    · simp at hg'
   | some ds =>
     simp only [Option.map_eq_some_iff] at h
     obtain ⟨g, hg', rfl⟩ := h
